@@ -232,6 +232,12 @@ def gen_follower(rng, nops, nkeys, overtake):
             routed = rng.random() < 0.5
             if routed and rng.random() < 0.5:
                 h.ops.append(("tmp", k, c))          # response before replication
+                if rng.random() < 0.25:
+                    # this node is then caught up by a snapshot / a full-value import of that key instead of the entry
+                    h.full(k)
+                    if rng.random() < 0.5:
+                        h.queries()
+                    continue
                 h.add(k, c)
             else:
                 h.add(k, c)
